@@ -44,6 +44,7 @@ type c04Case struct {
 	Type    string `json:"type"`
 	Entropy []byte `json:"entropy"`
 	Wide    bool   `json:"wide,omitempty"` // component strings from the wide alphabet (quotes, backslash, newline, ...)
+	DataLen int    `json:"datalen,omitempty"` // plugin.Message: forced payload length (length-prefix boundary sweep)
 }
 
 func c04CaseOf(c c04Combo, entropy []byte, wide bool) c04Case {
@@ -778,7 +779,7 @@ func c04Run(c c04Case) verifkit.Result {
 		return verifkit.Result{Labels: []string{"unregistered-combination"}}
 	}
 	tn := combo.Type.String()
-	p, env := c04Build(combo, c.Entropy, c.Wide)
+	p, env := c04BuildLen(combo, c.Entropy, c.Wide, c.DataLen)
 	labels := func() []string {
 		out := []string{"type:" + tn}
 		for l := range env.labels {
@@ -928,7 +929,7 @@ var c04MemoKey string
 var c04MemoRes verifkit.Result
 
 func c04RunMemo(c c04Case) verifkit.Result {
-	k := fmt.Sprintf("%d/%d/%d/%s/%v/%x", c.State, c.Dir, c.Proto, c.Type, c.Wide, c.Entropy)
+	k := fmt.Sprintf("%d/%d/%d/%s/%v/%x/%d", c.State, c.Dir, c.Proto, c.Type, c.Wide, c.Entropy, c.DataLen)
 	if k == c04MemoKey {
 		return c04MemoRes
 	}
@@ -1048,7 +1049,7 @@ var c04EntropyGen = rapid.Custom(func(t *rapid.T) []byte {
 
 const c04Rule = "exhaustive over every live registration (state x direction x protocol x packet type, from the registries) with K entropy-built values each " +
 	"(reflection generator with per-type domain limits: boundary string/array sizes 0,1,100,255,256,max; optional pointers; JSON- and NBT-era components; NBT compounds; " +
-	"brigadier trees; signed-chat fields; maps); oracle: encode -> decode consumes all -> re-encode identical (maps: order-insensitive) and every field whose perturbation " +
+	"brigadier trees; signed-chat fields; maps; plugin message payloads additionally swept over every length-prefix boundary: 32767/32768 and k*32768 +-1 up to the Forge maximum on 1.7); oracle: encode -> decode consumes all -> re-encode identical (maps: order-insensitive) and every field whose perturbation " +
 	"changes the encoding comes back equal (bit-equal floats, nil==empty, components by codec normal form); non-trivial = a field >100 bytes, an optional present, a map with >=2 entries, " +
 	"a component, NBT, command tree or identified key is present and at least one field was proven to be on the wire"
 
@@ -1129,6 +1130,33 @@ func TestVerif_C04(t *testing.T) {
 			n++
 		}
 	}
+	// plugin message payload lengths on both sides of every length-prefix boundary
+	// (1.7: 2-or-3-byte extended short up to the Forge maximum; 1.8+: rest of frame)
+	swept := 0
+	for ci, combo := range combos {
+		if c04TypeName(combo.Type) != "plugin.Message" {
+			continue
+		}
+		lens := []int{32766, 32767, 32768}
+		if combo.Proto < version.Minecraft_1_8.Protocol {
+			for _, b := range []int{65536, 98304, 131072, 163840, 1 << 18, 1 << 19, 1 << 20, 1<<20 + 1<<15, 1 << 21} {
+				lens = append(lens, b-1, b, b+1)
+			}
+			lens = append(lens, 70000, 100000, 150000, 1000000, util.ForgeMaxArrayLength-1, util.ForgeMaxArrayLength)
+		} else if combo.Proto%7 != 0 {
+			continue // 1.8+: same code path for every protocol, a sample is enough
+		}
+		for li, n := range lens {
+			if n > util.ForgeMaxArrayLength || (ci+li)%shards != shard {
+				continue
+			}
+			cs := c04CaseOf(combo, c04EntropyGen.Example(baseSeed*7919+ci*64+li), false)
+			cs.DataLen = n
+			verifkit.CheckCase(t, "C04", "roundtrip", c04Rule, cs, c04RunMemo)
+			swept++
+		}
+	}
+	verifkit.Note("C04", "roundtrip", "plugin_message_length_sweep", swept)
 	if shard == 0 { // the driver sums numeric notes over shards
 		verifkit.Note("C04", "roundtrip", "registrations", len(combos))
 		verifkit.Note("C04", "roundtrip", "packet_types", len(types))
